@@ -6,8 +6,8 @@
    well-formedness), every rank, every numberer, EVERY processing order `order` of the incoming messages (any list of
    sources, hence fixed order, every arrival order and every message schedule), no bound on sizes. *)
 From Coq Require Import List NArith Bool Sorted.
-From DuneV Require Import C13_Model C13_Spec C13_Proofs C13_Proofs_Recv C13_Proofs_Sync C13_Proofs_Repair C13_Proofs_Completion C13_Proofs_Sound C13_Proofs_Iset C13_Proofs_Restore C13_Proofs_Char C13_Proofs_Order C13_Proofs_RestoreFull
-  C13_Proofs_Witness C13_Proofs_Examples C13_Proofs_Examples2.
+From DuneV Require Import Params_gen C13_Model C13_Spec C13_Proofs C13_Proofs_Recv C13_Proofs_Sync C13_Proofs_Repair C13_Proofs_Completion C13_Proofs_Sound C13_Proofs_Iset C13_Proofs_Restore C13_Proofs_Char C13_Proofs_Order C13_Proofs_RestoreFull
+  C13_Proofs_World C13_Proofs_Loops C13_Proofs_Modifier C13_Proofs_Twice C13_Proofs_Witness C13_Proofs_Examples C13_Proofs_Examples2.
 Import ListNotations.
 Local Open Scope N_scope.
 
@@ -148,29 +148,171 @@ Theorem C13_sync_idempotent : forall W numb p order, consistent W ->
 Proof. exact P_sync_idempotent. Qed.
 Print Assumptions C13_sync_idempotent.
 
-(* (kept from the first round) the local form of restore for one neighbour p that still lists one copy of q, under
-   the weaker per-rank hypotheses; subsumed by C13_restore for consistent worlds *)
-Theorem C13_restore_partial : forall numb w p q order iset' ri' ptrs l e,
-  sender_ok (c13_proc_of w p) -> proc_ok (c13_proc_of w q) ->
-  istrict (c13_iset (c13_proc_of w q)) -> (forall s, sglob (c13_iset (c13_proc_of w s))) ->
-  In (q, l) (c13_ri (c13_proc_of w p)) -> In e l -> In p order ->
-  c13_sync_rank c13_fixed numb w q order = C13Ok iset' ri' ptrs ->
-  (exists ip, In ip iset' /\ c13_keyof ip = (eg e, snd e) /\
-              (In ip (c13_iset (c13_proc_of w q)) \/ (c13_p ip = true /\ c13_l ip = numb (c13_g ip)))) /\
-  istrict iset' /\
-  In_rmap ri' p ((eg e, snd e), snd (fst e)) /\
-  (forall r lr e', In (r, lr) (c13_ri (c13_proc_of w p)) -> r <> q -> In e' lr -> eg e' = eg e ->
-     In_rmap ri' r ((eg e, snd e), snd e')) /\
-  (forall x, In x (c13_iset (c13_proc_of w q)) -> In x iset') /\
-  (forall s x, In_rmap (c13_ri (c13_proc_of w q)) s x -> In_rmap ri' s x) /\
-  (forall s x, In_rmap ri' s x -> In_rmap (c13_ri (c13_proc_of w q)) s x \/
-      exists src pb, In src order /\ In pb (c13_message w src q) /\ published q src pb s x) /\
-  rmap_wf ri'.
-Proof. exact P_restore_partial. Qed.
-Print Assumptions C13_restore_partial.
+(* ===================================================================== round "proof deepening"
+   C13_synced: isSynced() afterwards -- the sequence numbers, literally: endResize increments the set's seqNo,
+   repairLocalIndexPointers and the last statement of sync copy it into sourceSeqNo_/destSeqNo_. *)
+Theorem C13_synced : forall s, c13_is_synced (c13_sync_seq s) = true.
+Proof. exact P_synced. Qed.
+Print Assumptions C13_synced.
+(* (the harness observes Y 0 after a deletion through getModifier: the modifier declares the lists in sync BEFORE the resize) *)
+Theorem C13_modifier_then_resize_is_not_synced : forall s, c13_is_synced (c13_end_resize_seq (c13_get_modifier_seq s)) = false.
+Proof. exact P_modifier_then_resize_not_synced. Qed.
+Print Assumptions C13_modifier_then_resize_is_not_synced.
 
-(* C13_synced: the model declares the remote indices in sync after every completed sync (constant in
-   c13_obs_of_result); on the implementation isSynced() is part of every dump and checked by the oracle. *)
+(* the tie to the source (coq/Params_gen.v is regenerated from indicessyncer.hh on every run): the variant of the model the
+   CURRENT source is, is the repaired one the theorems are about; send / probe / receive use one tag; both add sites create
+   public pairs; DefaultNumberer returns numeric_limits<size_t>::max() *)
+Theorem C13_source_is_the_repaired_variant : c13_tree = c13_fixed.
+Proof. exact P_tree_is_fixed. Qed.
+Print Assumptions C13_source_is_the_repaired_variant.
+Theorem C13_source_constants :
+  (c13_param_tag_send = c13_param_tag_probe /\ c13_param_tag_send = c13_param_tag_recv) /\
+  (c13_param_added_public = true /\ c13_param_added_public_second_site = true) /\
+  (forall g, c13_param_default_is_size_max = true /\ c13_default_numberer g = 2 ^ 64 - 1).
+Proof. exact (conj P_tags_agree (conj P_added_public P_default_numberer)). Qed.
+Print Assumptions C13_source_constants.
+
+(* WHOLE WORLD, any process count, any neighbour graph.  world_ok w: every rank satisfies sender_ok and the neighbour relation
+   is symmetric; sigma_ok w sigma: sigma r is ANY arrangement of r's old neighbours (useFixedOrder or any arrival order).
+   The collective sync never blocks (no C13Deadlock) and every rank gets: strictly ordered index set, well-formed lists with
+   valid references, nothing lost, new pairs public and numbered by the rank's numberer. *)
+Theorem C13_world_sync : forall numb w sigma r, world_ok w -> sigma_ok w sigma -> (r < length w)%nat ->
+  exists iset' ri' ptrs,
+    nth_error (c13_sync c13_fixed numb w sigma) r = Some (C13Ok iset' ri' ptrs) /\
+    istrict iset' /\ rmap_wf ri' /\
+    (forall q e, In_rmap ri' q e -> has_key iset' (fst e)) /\
+    (forall p, In p (c13_iset (c13_proc_of w (N.of_nat r))) -> In p iset') /\
+    (forall q e, In_rmap (c13_ri (c13_proc_of w (N.of_nat r))) q e -> In_rmap ri' q e) /\
+    (forall p, In p iset' -> In p (c13_iset (c13_proc_of w (N.of_nat r))) \/
+                             (c13_p p = true /\ c13_l p = numb (N.of_nat r) (c13_g p))).
+Proof. exact P_world_sync. Qed.
+Print Assumptions C13_world_sync.
+
+(* C13_completion for the whole world (first sentence of the property): for EVERY process p, neighbour q and entry e of p's
+   list for q, after the collective sync q holds the pair, lists p, and lists every other holder p knew (third parties). *)
+Theorem C13_world_completion : forall numb w sigma p q l e, world_ok w -> sigma_ok w sigma -> (q < length w)%nat ->
+  In (N.of_nat q, l) (c13_ri (c13_proc_of w p)) -> In e l ->
+  exists iset' ri' ptrs,
+    nth_error (c13_sync c13_fixed numb w sigma) q = Some (C13Ok iset' ri' ptrs) /\
+    has_key iset' (eg e, snd e) /\
+    In_rmap ri' p ((eg e, snd e), snd (fst e)) /\
+    forall r lr e', In (r, lr) (c13_ri (c13_proc_of w p)) -> r <> N.of_nat q -> In e' lr -> eg e' = eg e ->
+      In_rmap ri' r ((eg e, snd e), snd e').
+Proof. exact P_world_completion. Qed.
+Print Assumptions C13_world_completion.
+
+(* C13_order_independent for the whole world: useFixedOrder on some ranks, arbitrary arrival orders on others -- same world *)
+Theorem C13_world_order_independent : forall numb w att sigma1 sigma2,
+  (forall r, sender_ok (c13_proc_of w r) /\ agree_proc att r (c13_proc_of w r)) ->
+  (forall r q, In q (sigma1 r) <-> In q (sigma2 r)) ->
+  c13_sync c13_fixed numb w sigma1 = c13_sync c13_fixed numb w sigma2.
+Proof. exact P_world_order_independent. Qed.
+Print Assumptions C13_world_order_independent.
+
+Theorem C13_world_restore : forall W W' D numb sigma p, consistent W -> deleted W W' D -> still_listed W W' D ->
+  (forall r s, In s (sigma r) <-> In s (map fst (c13_ri (c13_proc_of W r)))) -> length W' = length W -> (p < length W)%nat ->
+  exists ptrs,
+    nth_error (c13_sync c13_fixed numb W' sigma) p =
+      Some (C13Ok (map (renum (numb (N.of_nat p)) (D (N.of_nat p))) (c13_iset (c13_proc_of W (N.of_nat p))))
+                  (c13_ri (c13_proc_of W (N.of_nat p))) ptrs).
+Proof. exact P_world_restore. Qed.
+Print Assumptions C13_world_restore.
+
+(* valid references for EVERY list (the strict_keys hypothesis of C13_repair_total is established by the code under the
+   one-copy-per-rank agreement: proved, not assumed) *)
+Theorem C13_all_pointers_repaired : forall numb w r att order iset' ri' ptrs,
+  proc_ok (c13_proc_of w r) -> istrict (c13_iset (c13_proc_of w r)) ->
+  (forall q, sglob (c13_iset (c13_proc_of w q))) ->
+  agree_entries att r (c13_ri (c13_proc_of w r)) -> senders_ok w att order ->
+  c13_sync_rank c13_fixed numb w r order = C13Ok iset' ri' ptrs ->
+  forall q l, In (q, l) ri' ->
+    exists ps, In (q, C13Ptrs ps) ptrs /\ Forall2 (fun e k => ptr_to iset' (fst e) k) l ps.
+Proof. exact P_rank_pointers. Qed.
+Print Assumptions C13_all_pointers_repaired.
+
+(* closure: the hypotheses the theorems make about the input (sender_ok, agreement with the attribute function) hold again
+   of the state after sync -- they are an invariant of sequences of syncs, established by the code, not only assumed; this
+   also covers worlds with partial knowledge (restricted hints, forgotten neighbours, hand-grown pairs) where one sync is not
+   yet a fixpoint *)
+Theorem C13_invariant_preserved : forall numb w r att order iset' ri' ptrs,
+  proc_ok (c13_proc_of w r) -> istrict (c13_iset (c13_proc_of w r)) ->
+  (forall q, sglob (c13_iset (c13_proc_of w q))) ->
+  agree_proc att r (c13_proc_of w r) -> senders_ok w att order ->
+  c13_sync_rank c13_fixed numb w r order = C13Ok iset' ri' ptrs ->
+  sender_ok (C13Proc iset' ri') /\ agree_proc att r (C13Proc iset' ri').
+Proof. exact P_rank_closure. Qed.
+Print Assumptions C13_invariant_preserved.
+
+(* the user-supplied numberer: it is asked exactly when a pair is appended to newIndices_ (c13_add), so its call sequence is
+   map c13_g rs_added; C13_index_set_strict says every appended key is new and appended once; within ONE message the calls
+   come for ascending global indices, as the documentation of sync(numberer) promises (any variant of the model) *)
+Theorem C13_numberer_called_ascending_per_message : forall v rank_ numb source msg idx st, msg_sorted msg ->
+  exists blk, rs_added (snd (fold_left (c13_unpack_one v rank_ numb source) msg (idx, st))) = rs_added st ++ blk /\
+              StronglySorted gle blk /\ (forall x, In x blk -> exists pb, In pb msg /\ c13_g x = pb_g pb).
+Proof. exact receive_calls_ascending. Qed.
+Print Assumptions C13_numberer_called_ascending_per_message.
+Theorem C13_messages_ascending : forall dest pr, sglob (c13_iset pr) -> msg_sorted (c13_pack dest (c13_iset pr) (c13_ri pr)).
+Proof. exact pack_sorted. Qed.
+Print Assumptions C13_messages_ascending.
+
+(* calculateMessageSizes (collective iterator) announces exactly the number of publications packAndSend packs: the
+   assert(published == infoSend_[destination].publish) of the code, and the count the receiver loops over *)
+Theorem C13_publish_count : forall dest pr, sender_ok pr ->
+  c13_calc_publish dest (c13_iset pr) (c13_ri pr) = length (c13_pack dest (c13_iset pr) (c13_ri pr)).
+Proof. exact P_publish_count. Qed.
+Print Assumptions C13_publish_count.
+
+(* insertIntoRemoteIndexList on the iterator tuple (remote list, globalMap_ list, oldMap_ list walked in parallel): the three
+   lists stay aligned, the insertion happens at the same position in all three with isOld = false, and the zipped view is the
+   list-level insertion all other theorems speak about (both variants) *)
+Theorem C13_tuple_insert_refines : forall v key ra rl gl bl, length rl = length gl -> length bl = length gl ->
+  let t := c13_tuple_insert v key ra rl gl bl in
+  c13_tuple_view t = c13_list_insert v key ra (combine gl rl) /\
+  length (fst (fst t)) = length (snd (fst t)) /\ length (snd t) = length (snd (fst t)) /\
+  (t = (rl, gl, bl) \/
+   exists n, inserted_at n ra rl (fst (fst t)) /\ inserted_at n key gl (snd (fst t)) /\ inserted_at n false bl (snd t)).
+Proof. exact P_tuple_insert_refines. Qed.
+Print Assumptions C13_tuple_insert_refines.
+
+(* RemoteIndexListModifier<T,A,true>, literal loops: remove = filter, hence the property's deletion (del_proc) is what the
+   modifier calls produce; insert keeps the order; its repairLocalIndexPointers (after fix 1d43834) is total and exact *)
+Theorem C13_modifier_remove_is_filter : forall gs rl, lglob rl ->
+  c13_mod_remove_all gs rl = filter (fun e => negb (existsb (N.eqb (eg e)) gs)) rl.
+Proof. exact P_mod_remove_all_filter. Qed.
+Print Assumptions C13_modifier_remove_is_filter.
+Theorem C13_deletion_is_modifier_removal : forall Dl pr, (forall q l, In (q, l) (c13_ri pr) -> lglob l) ->
+  c13_ri (del_proc (fun g => existsb (N.eqb g) Dl) pr) = map (fun x => (fst x, c13_mod_remove_all Dl (snd x))) (c13_ri pr).
+Proof. exact P_del_proc_is_modifier. Qed.
+Print Assumptions C13_deletion_is_modifier_removal.
+Theorem C13_modifier_insert_ordered : forall e rl, lglob rl -> (forall x, In x rl -> eg x <> eg e) ->
+  let r := c13_mod_insert e (eg e) rl (map eg rl) in
+  lglob (fst r) /\ snd r = map eg (fst r) /\ (forall x, In x (fst r) <-> x = e \/ In x rl).
+Proof. exact P_mod_insert_ordered. Qed.
+Print Assumptions C13_modifier_insert_ordered.
+Theorem C13_modifier_repair_total : forall iset, gsorted iset -> forall gl pos,
+  StronglySorted N.le gl -> (forall g, In g gl -> exists p, In p iset /\ c13_g p = g) ->
+  (forall g j pj, In g gl -> (j < pos)%nat -> nth_error iset j = Some pj -> c13_g pj < g) ->
+  exists ks, c13_mod_repair iset gl pos = Some ks /\
+             Forall2 (fun g k => exists p, nth_error iset k = Some p /\ c13_g p = g) gl ks.
+Proof. exact P_mod_repair_total. Qed.
+Print Assumptions C13_modifier_repair_total.
+
+(* a second sync on the fixed code: the world a restoring sync produces is again consistent (also the renumbered, re-added
+   pairs: a deleted copy that is still listed was public), so a second sync -- other numberer, other order -- is idle *)
+Theorem C13_restored_world_consistent : forall W W' W2 D numb,
+  consistent W -> deleted W W' D -> still_listed W W' D -> is_restored W W2 D numb -> consistent W2.
+Proof. exact P_restored_consistent. Qed.
+Print Assumptions C13_restored_world_consistent.
+Theorem C13_restore_then_second_sync_idle : forall W W' W2 D numb numb2 p order order2,
+  consistent W -> deleted W W' D -> still_listed W W' D -> is_restored W W2 D numb ->
+  (forall s, In s order <-> In s (map fst (c13_ri (c13_proc_of W p)))) ->
+  (forall s, In s order2 <-> In s (map fst (c13_ri (c13_proc_of W p)))) ->
+  (exists ptrs, c13_sync_rank c13_fixed (numb p) W' p order =
+                C13Ok (c13_iset (c13_proc_of W2 p)) (c13_ri (c13_proc_of W2 p)) ptrs) /\
+  (exists ptrs, c13_sync_rank c13_fixed numb2 W2 p order2 =
+                C13Ok (c13_iset (c13_proc_of W2 p)) (c13_ri (c13_proc_of W2 p)) ptrs).
+Proof. exact P_restore_then_idle. Qed.
+Print Assumptions C13_restore_then_second_sync_idle.
 
 (* The tree as it is: the full statement is false.  Witness 1 (corpus/C13 line 1): sync on an untouched consistent
    two-rank owner/overlap decomposition duplicates remote entries and the pointer repair dereferences end(). *)
@@ -211,3 +353,13 @@ Example C13_restore_hypotheses_satisfiable :
   consistent c13_x2 /\ deleted c13_x2 c13_x2' c13_d2 /\ still_listed c13_x2 c13_x2' c13_d2 /\
   c13_sync_rank c13_fixed (fun g => 100 + g) c13_x2' 1 [0] = C13Ok [C13Pair 5 2 105 true] [(0, [((5, 2), 1)])] [(0, C13Ptrs [0%nat])].
 Proof. exact (conj x2_consistent (conj x2_deleted (conj x2_still_listed x2_restored))). Qed.
+
+Example C13_world_hypotheses_satisfiable :
+  world_ok c13_x2' /\ sigma_ok c13_x2' (c13_fixed_order c13_x2') /\ is_restored c13_x2 c13_x2r c13_d2 (fun _ g => 100 + g).
+Proof. exact (conj (proj1 x2_world_ok) (conj (proj2 x2_world_ok) x2_is_restored)). Qed.
+(* the literal loops on concrete data: tuple insertion, modifier removal + repair *)
+Example C13_loops_compute :
+  c13_tuple_insert c13_fixed (5, 1) 3 [2; 2] [(3, 1); (7, 1)] [true; true] = ([2; 3; 2], [(3, 1); (5, 1); (7, 1)], [true; false; true]) /\
+  c13_mod_remove_all [5; 9] [((3, 1), 2); ((5, 1), 2); ((7, 1), 3); ((9, 1), 2)] = [((3, 1), 2); ((7, 1), 3)] /\
+  c13_mod_repair [C13Pair 1 1 0 true; C13Pair 3 1 1 true; C13Pair 7 1 2 true] [3; 7] 0 = Some [1%nat; 2%nat].
+Proof. repeat split; vm_compute; reflexivity. Qed.
